@@ -428,7 +428,10 @@ class ModelBase:
         res = None
         if None not in names:
             tyv = v.ty
-            if tyv in ('str', 'int', 'float', 'bool', 'dict', 'list', 'tuple') and not v.maybe_none and not v.union:
+            builtin_names = ('str', 'int', 'float', 'dict', 'list', 'tuple', 'bool', 'set')
+            if tyv in ('set', 'ndarray', 'Structure', 'Lattice', 'DataFrame', 'Species', 'obj') and not v.union and all(n in builtin_names for n in names):
+                res = tyv in names
+            elif tyv in ('str', 'int', 'float', 'bool', 'dict', 'list', 'tuple') and not v.maybe_none and not v.union:
                 pyname = {'builtins.' + n for n in names} | set(names)
                 # bool is an int; ints are not floats
                 if tyv in pyname or f'builtins.{tyv}' in pyname:
